@@ -166,7 +166,7 @@ def verify_cases(rng, res, n):
                 else:
                     form = "verification-keys"
                     argv += ["--verification-keys"] + keyfiles
-                variant = rng.choice(["plain"] * 6 + ["no_keys", "unknown_option", "missing_layout", "garbage_layout", "extra_unsigned_key",
+                variant = rng.choice(["plain"] * 6 + ["no_keys", "unknown_option", "missing_layout", "garbage_layout", "extra_unsigned_key", "layout_keys_more_than_types",
                                       "mixed_forms_extra_unsigned", "mixed_forms_extra_unsigned", "mixed_forms_gpg_unsigned"])
                 if variant.startswith("mixed_forms") and form != "verification-keys":
                     variant = "plain"
@@ -197,6 +197,15 @@ def verify_cases(rng, res, n):
                     if W.gpg_available():
                         g = W.gpg_key("no_sub")
                         argv = argv + ["--gpg", g.keyid, "--gpg-home", g.gpg_home]
+                        out2 = "fail"
+                    else:
+                        variant = "plain"
+                elif variant == "layout_keys_more_than_types":
+                    # the deprecated option with a type list shorter than the key list, the surplus key one that did not
+                    # sign: whatever the tool makes of the mismatch, it is not a success
+                    strangers = [k for k in W.pool() if k not in ch.owners and k.kind == "rsa"]
+                    if form == "layout-keys" and strangers and len(supplied) == 1:
+                        argv += [write_pub_pem(strangers[0], root), "--key-types", "rsa"]
                         out2 = "fail"
                     else:
                         variant = "plain"
@@ -504,6 +513,11 @@ def shard(seed, idx, n, tier):
     rng = core.rng_for(seed, "c18", idx)
     if idx == 0:
         incomplete_cases(res)
+    if idx in (1, 2):
+        # --layout-keys with fewer --key-types, the surplus key one that did not sign (shared with C01): not a success
+        from harness.props import c01
+        if idx == 1:
+            c01.layout_keys_types_case(res, "C18")
     verify_cases(rng, res, n)
     if idx < 4:
         gpg_verify_case(rng, res)
